@@ -4,9 +4,9 @@
    loaded); [keep] is the specification of "satisfies the filter" (readable in C19_Stream.v: vote/failed flags
    absent = no restriction, any-of include, none-of exclude, all-of required; an account is mentioned when it
    is a static key or a loaded address). *)
-From Coq Require Import List NArith Sorting.Sorted.
+From Coq Require Import List NArith Bool Sorting.Sorted.
 Import ListNotations.
-Require Import YF.C19_Stream.
+Require Import YF.C19_Stream YF.C19_Flush.
 
 (* StreamTransactions, scan path: for every archive, range and filter, the stream is exactly the archived
    transactions of the range that satisfy the filter, in archive (ascending slot, position) order;
@@ -40,6 +40,16 @@ Theorem C19_index_path_agrees_with_scan : forall ar lo hi f limit,
   stream_txs_indexed true limit all lo hi f = stream_txs_scan true true ar lo hi (Some f).
 Proof. exact indexed_agrees_with_scan. Qed.
 
+(* the ordered buffer's flush: visiting the held slots in ascending order (the loop after /repo d26d291) sends
+   exactly what walking every slot number of the window sends, in the same order — both are the model's buf_flush —
+   and it visits at most one slot per buffered transaction whatever the window is *)
+Theorem C19_flush_by_held_slots_is_flush_by_walk : forall lo hi buf, StronglySorted key_lt buf ->
+  flush_sparse lo hi buf = flush_walk buf (range lo hi) /\ flush_sparse lo hi buf = buf_flush lo hi buf.
+Proof. exact (fun lo hi buf S => conj (sparse_is_walk lo hi buf S) (sparse_is_buf_flush lo hi buf S)). Qed.
+Theorem C19_flush_visits_at_most_the_buffer : forall lo hi buf,
+  length (filter (fun s => N.leb lo s && N.leb s hi) (held_slots buf)) <= length buf.
+Proof. exact sparse_visits_at_most_buffer. Qed.
+
 (* refutations of the pinned behaviours (witnesses by vm_compute) *)
 Theorem C19_inverted_polarity_refuted :
   exists ar lo hi, archived_txs ar lo hi <> [] /\ stream_txs_scan true false ar lo hi None = [].
@@ -66,6 +76,8 @@ Print Assumptions C19_transactions_scan.
 Print Assumptions C19_blocks.
 Print Assumptions C19_blocks_ascending_in_range.
 Print Assumptions C19_index_path_agrees_with_scan.
+Print Assumptions C19_flush_by_held_slots_is_flush_by_walk.
+Print Assumptions C19_flush_visits_at_most_the_buffer.
 Print Assumptions C19_inverted_polarity_refuted.
 Print Assumptions C19_stop_at_skipped_slot_refuted.
 Print Assumptions C19_cap_refuted.
